@@ -180,6 +180,7 @@ libNew(FileName fname, Bool rdOnly, FILE *f, Offset pos)
 	lib->name	= fnameCopy(fname);
 	lib->arent	= NULL;
 	lib->rdOnly	= rdOnly;
+	lib->isOutput	= false;
 	lib->intLoaded	= false;
 	lib->idName	= NULL;
 	lib->file	= f;
@@ -233,7 +234,9 @@ libRead(FileName fname)
 Lib
 libWrite(FileName fname)
 {
-	return libNew(fname, false, fileWubOpen(fname), (Offset) 0);
+	Lib lib = libNew(fname, false, fileWubOpen(fname), (Offset) 0);
+	lib->isOutput = true;
+	return lib;
 }
 
 /*
@@ -336,7 +339,13 @@ libClose(Lib lib)
 	else
 		libPutHeader(lib);
 
-	if (!(lib->rdOnly & 2)) fclose(lib->file);	
+	if (!(lib->rdOnly & 2)) {
+		/* A failed write, flush or close leaves an incomplete file. */
+		Bool	failed = lib->isOutput && ferror(lib->file) != 0;
+		if (fclose(lib->file) != 0 && lib->isOutput) failed = true;
+		if (failed)
+			comsgFatal(NULL, ALDOR_F_CantWrite, libToStringStatic(lib));
+	}
 	libUnRegister(lib);
 	fnameFree(lib->name);
 
